@@ -149,7 +149,24 @@ fn with_opts(ctx: &mut Ctx, f: &Facts, o: &JaxOpts, transitive: bool, what: &str
     if lw.strict() {
         return via_jax(ctx, f, o, transitive, what);
     }
-    with_leeway(ctx, f, jax::render(f, o), &format!("{o:?}"), transitive, what, &lw).1.map(|x| x.0)
+    let (accepted, res) = with_leeway(ctx, f, jax::render(f, o), &format!("{o:?}"), transitive, what, &lw);
+    // The leeway is the union over the elements of the file set. A refusal of a COMBINATION by a loader that accepts
+    // each of its unspecified elements alone (same facts, same stanza / row order) is not explained by the loader's
+    // policy on any of them; the statement still does not forbid it, so it stays without verdict - under its own key,
+    // which the run's NOTE shows.
+    if accepted == Some(false) && o.distractors.len() >= 2 {
+        let single = |d: &Distractor| {
+            let mut s = o.clone();
+            s.distractors = vec![d.clone()];
+            s
+        };
+        let lenient: Vec<&Distractor> = o.distractors.iter().filter(|d| !leeway_for(&Facts::default(), &single(d)).may_refuse.is_empty()).collect();
+        let names_ok = leeway_for(f, &JaxOpts::default()).may_refuse.is_empty();
+        if names_ok && !lenient.is_empty() && lenient.iter().all(|d| matches!(jax::load(&jax::render(f, &single(d)), transitive), Ok(Ok(_)))) {
+            ctx.bump("refused: a combination of layout elements although each unspecified element of it is accepted alone (no verdict)", 1);
+        }
+    }
+    res.map(|x| x.0)
 }
 
 /// Policy-neutral run of one rendered file set (`rendered` was made from `g`, possibly edited by the caller): within
@@ -191,6 +208,10 @@ fn with_leeway(ctx: &mut Ctx, g: &Facts, rendered: jax::Rendered, options: &str,
                 }
             }
             ctx.outcome(obs.fingerprint());
+            // (so that "nothing accepted, nothing refused" - the space did not run - differs from "all accepted")
+            for r in &lw.may_refuse {
+                ctx.bump(&format!("accepted: {r}"), 1);
+            }
             match (matched, first) {
                 (Some(i), _) => (Some(true), Some((obs, i))),
                 (None, Some((site, sig, det))) => {
@@ -345,7 +366,9 @@ pub fn run(ctx: &mut Ctx) {
     let family: Vec<(Facts, String)> = format_family(if thorough { 4 } else { 4 }, if thorough { 1 } else { 6 }).into_iter().map(|(f, w)| (textual(&f), w)).collect();
     // term names around and beyond the 255-byte limit of the BINARY format - the text format has no such limit
     let mut family = family;
-    if let Some((base, _)) = family.iter().find(|(f, _)| f.terms.len() == 3 && f.anns.iter().any(|a| a.kind == Kind::Gene) && f.terms.iter().all(|t| !t.obsolete && t.replacement.is_none())).cloned() {
+    // (a family without such a member is a machinery failure: seven fact sets would silently be missing)
+    {
+        let (base, _) = family.iter().find(|(f, _)| f.terms.len() == 3 && f.anns.iter().any(|a| a.kind == Kind::Gene) && f.terms.iter().all(|t| !t.obsolete && t.replacement.is_none())).cloned().expect("C09: the family has no plain three-term fact set with a gene (base of the long-term-name fact sets)");
         for (len, unit) in [(255usize, "a"), (256, "a"), (300, "a"), (1000, "a"), (128, "\u{e9}"), (150, "\u{e9}"), (86, "\u{20ac}")] {
             let mut f = base.clone();
             f.terms[2].name = unit.repeat(len);
@@ -377,7 +400,7 @@ pub fn run(ctx: &mut Ctx) {
                         ctx.exec();
                         same_up_to_rounding(ctx, &bobs, jobs, "from_standard vs Builder", &|| json!({"facts": f.to_json(), "family": what}));
                     }
-                    _ => ctx.bump("differential_partner_not_available: Builder", 1),
+                    _ => ctx.bump("skipped: differential partner not available (Builder refused the facts or its read API is inconsistent; C15's subject)", 1),
                 }
             }
             if f.terms.iter().all(|t| t.name.len() <= 255) {
@@ -387,7 +410,7 @@ pub fn run(ctx: &mut Ctx) {
                         ctx.exec();
                         same_up_to_rounding(ctx, &bobs, jobs, "from_standard vs from_bytes(v3)", &|| json!({"facts": f.to_json(), "family": what}));
                     }
-                    _ => ctx.bump("differential_partner_not_available: from_bytes(v3)", 1),
+                    _ => ctx.bump("skipped: differential partner not available (from_bytes(v3) of the independent encoder refused or its read API is inconsistent; C08's subject)", 1),
                 }
             }
         }
@@ -483,7 +506,9 @@ pub fn run(ctx: &mut Ctx) {
         }
     }
     // ---- one base fact set (three plain terms, two genes with rows, OMIM and ORPHA records) for the value spaces below
-    let base: Option<Facts> = family
+    // (five value spaces hang on it: a family that has no such member is a machinery failure, not 1 300 cases less)
+    let base: Option<Facts> = Some(
+        family
         .iter()
         .find(|(f, _)| {
             f.terms.len() == 3
@@ -492,7 +517,9 @@ pub fn run(ctx: &mut Ctx) {
                 && [11u32, 22].iter().all(|g| f.anns.iter().any(|a| a.kind == Kind::Gene && a.id == *g))
                 && [Kind::Omim, Kind::Orpha].iter().all(|k| f.anns.iter().any(|a| a.kind == *k))
         })
-        .map(|(f, _)| f.clone());
+        .map(|(f, _)| f.clone())
+        .expect("C09: the family has no base fact set (three plain terms, genes 11 and 22 with rows, an OMIM and an ORPHA record) for the value spaces"),
+    );
     let builder_differential = |ctx: &mut Ctx, g: &Facts, jobs: &Obs, what: &str| {
         ctx.transitions(g.n_steps());
         match drive::build(g, Mode::Defaults).map(|b| Obs::of(&b)) {
@@ -500,7 +527,7 @@ pub fn run(ctx: &mut Ctx) {
                 ctx.exec();
                 same_up_to_rounding(ctx, &bobs, jobs, "from_standard vs Builder", &|| json!({"facts": g.to_json(), "variant": what}));
             }
-            _ => ctx.bump("differential_partner_not_available: Builder", 1),
+            _ => ctx.bump("skipped: differential partner not available (Builder refused the facts or its read API is inconsistent; C15's subject)", 1),
         }
     };
     // ---- release dates: the data-version line is text, every digit position takes every kind of value
@@ -551,10 +578,9 @@ pub fn run(ctx: &mut Ctx) {
                 g.anns.push(Facts::ann(Kind::Gene, 5000 + i as u32, &format!("BG{i}"), Some(*id)));
                 g.anns.push(Facts::ann(Kind::Omim, 700_000 + *id % 1000, &format!("Border disease {id}"), Some(*id)));
             }
-            if g.terms.iter().any(|t| t.id == 118) {
-                with_opts(ctx, &g, &JaxOpts::default(), false, &format!("stanza order {order:?}"));
-                with_opts(ctx, &g, &JaxOpts::default(), true, &format!("stanza order {order:?} (transitive loader)"));
-            }
+            assert!(g.terms.iter().any(|t| t.id == 118), "C09: the base fact set has no HP:0000118");
+            with_opts(ctx, &g, &JaxOpts::default(), false, &format!("stanza order {order:?}"));
+            with_opts(ctx, &g, &JaxOpts::default(), true, &format!("stanza order {order:?} (transitive loader)"));
             ctx.sample(|| json!({"stanza_order": order}));
         }
     }
